@@ -2,7 +2,8 @@
    RG.Ast.* (generic) and Inst_Walker.v (about the walker REGENERATED from /repo on this run). *)
 From Coq Require Import List NArith Bool Arith Lia String.
 From RG.Ast Require Import Tree Walker WalkerProof WalkSpec WfCheck.
-From RGW Require Import Gen_AstSchema Gen_Walker Gen_WalkTags Gen_WalkState Inst_Walker.
+From RG.Engine Require Import RunState.
+From RGW Require Import Gen_AstSchema Gen_Walker Gen_WalkTags Gen_WalkState Gen_RunnerState Inst_Walker Inst_C16Run.
 Import ListNotations.
 
 (* For every tree (every nesting of if / else-if chains, init statements, function literals, any depth) and every
@@ -48,6 +49,20 @@ Theorem C16_deadcode_filter_reads_flag :
   gen_deadcode_filter_accepts_iff_flag = true /\ gen_deadcode_op_wired = true /\ gen_ctx_writes_outside_walker = [].
 Proof. vm_compute. auto. Qed.
 Print Assumptions C16_deadcode_filter_reads_flag.
+
+(* later files: a run on a state that earlier runs used -- any files, any number, also runs that a panicking callback
+   aborted in the middle of a dead branch -- starts outside dead code, and every run of every such history is the run on a
+   fresh state (the walk itself is a function of the start context, C16_dead_flag_is_spec) *)
+Theorem C16_run_starts_outside_dead_code :
+  forall prior, w_dead (start_state c16_policy prior) = false /\ start_state c16_policy prior = RunState.st0.
+Proof. intros prior. rewrite (start_state_ignores_prior c16_policy c16_policy_ok). split; reflexivity. Qed.
+Print Assumptions C16_run_starts_outside_dead_code.
+
+Theorem C16_later_files_unaffected :
+  forall (input reports : Type) (run_from : wst -> input -> reports) (leftover : wst -> input -> carried) prior h,
+  run_history c16_policy input reports run_from leftover prior h = map (run_from RunState.st0) h.
+Proof. intros. rewrite (history_independent c16_policy input reports run_from leftover c16_policy_ok). reflexivity. Qed.
+Print Assumptions C16_later_files_unaffected.
 
 (* ---- non-vacuity: a well-formed tree with a constant `if`; all three regimes occur ----
    func f() { if C { a(9,10) } else { b(12,13) }; c(14,15) } *)
